@@ -369,3 +369,98 @@ def t8(ctx):
 def t9(ctx):
     from .c16 import h2, q1
     return list(h2(ctx)) + [o for o in q1(ctx) if o.detail == "create_href quotes the whole href"]
+
+
+@rule("C07", "T10", floor=3, kind="S",
+      desc="a token is accepted wherever it was issued: the sync-token element of a REPORT carries the value of "
+           "get_sync_token() as it is (the DAV:sync-token property serves the same call, T4), and the text of the "
+           "request's sync-token element reaches iter_differences_since as it is - a wrapping applied by one issuer "
+           "only makes the tokens of the other one invalid")
+def t10(ctx):
+    from .common import unwrap_await
+    obs = []
+    az = ctx.own_method("xandikos.sync.SyncToken", "aselement")
+    cfg = ctx.cfg(az)
+    du = DefUse(cfg)
+    sites = [n for n in cfg.stmt_nodes() if n.kind == "stmt" and isinstance(n.ast, ast.Assign) and any(isinstance(t, ast.Attribute) and t.attr == "text" for t in n.ast.targets)]
+    if not sites:
+        raise AnalysisError("SyncToken.aselement: assignment of the element text not found")
+    for n in sites:
+        os_ = origins(du, n, n.ast.value)
+        ok = bool(os_) and all(o.kind == "expr" and not o.path and dotted(o.leaf) == "self.token" for o in os_)
+        obs.append(ctx.ob(ok, az.qualname, "%s:%d" % (az.module.rel, n.lineno), "element text is the token",
+                          "ret.text = self.token",
+                          "SyncToken.aselement writes `%s`, not the token itself: the DAV:sync-token property hands out the bare value of "
+                          "get_sync_token(), so the two issuers disagree and one kind of token is refused (or misread) by the next REPORT"
+                          % src(n.ast.value)[:60]))
+    rp = ctx.own_method("xandikos.sync.SyncCollectionReporter", "report")
+    cfg = ctx.cfg(rp)
+    du = DefUse(cfg)
+    n_tok = n_it = 0
+    for n in cfg.stmt_nodes():
+        for c in n.calls():
+            d = dotted(c.func) or ""
+            if d.split(".")[-1] == "SyncToken" and c.args:
+                n_tok += 1
+                os_ = origins(du, n, c.args[0])
+                ok = bool(os_) and all(o.kind == "expr" and not o.path and isinstance(unwrap_await(o.leaf), ast.Call)
+                                       and (dotted(unwrap_await(o.leaf).func) or "").endswith(".get_sync_token") for o in os_)
+                obs.append(ctx.ob(ok, rp.qualname, "%s:%d" % (rp.module.rel, n.lineno), "issued token is get_sync_token()",
+                                  "SyncToken(resource.get_sync_token())",
+                                  "the token a sync REPORT issues is `%s`, not the value of resource.get_sync_token()" % src(c.args[0])[:60]))
+            if isinstance(c.func, ast.Attribute) and c.func.attr == "iter_differences_since" and c.args:
+                n_it += 1
+                os_ = origins(du, n, c.args[0])
+                ok = bool(os_) and all((o.kind == "expr" and not o.path and ((isinstance(o.leaf, ast.Attribute) and o.leaf.attr == "text")
+                                                                           or (isinstance(o.leaf, ast.Constant) and o.leaf.value is None))) for o in os_)
+                a0 = unwrap_await(c.args[0])
+                if not ok and isinstance(a0, ast.Attribute) and isinstance(a0.value, ast.Name):
+                    # a field of a request object the body was parsed into: what the field holds is decided where the object
+                    # is filled, which this rule does not follow - no verdict on the token, none against it either
+                    base_leaves = {id(o.leaf) for o in origins(du, n, a0.value) if o.leaf is not None}
+                    if os_ and all(o.leaf is not None and id(o.leaf) in base_leaves for o in os_):
+                        ok = True
+                obs.append(ctx.ob(ok, rp.qualname, "%s:%d" % (rp.module.rel, n.lineno), "presented token is compared as sent",
+                                  "iter_differences_since(<text of the sync-token element>, ...)",
+                                  "the token of the request is rewritten (`%s`) before it is looked up: a token issued through the other "
+                                  "channel (the DAV:sync-token property) no longer names the state it was issued for"
+                                  % ", ".join(sorted({src(o.leaf)[:50] for o in os_ if o.leaf is not None}))))
+    if not n_tok or not n_it:
+        raise AnalysisError("SyncCollectionReporter.report: SyncToken(...) / iter_differences_since(...) not found")
+    return obs
+
+
+@rule("C07", "T11", floor=1, kind="S",
+      desc="the first report and the later ones enumerate the same thing: every difference iter_differences_since yields "
+           "is an entry of store.iter_changes(old, new) - a second source for the initial listing (members(), which also "
+           "has the child collections) hands out members that no later difference ever removes or updates")
+def t11(ctx):
+    from .common import loop_body_nodes
+    fi = ctx.own_method("xandikos.web.StoreBasedCollection", "iter_differences_since")
+    cfg = ctx.cfg(fi)
+    du = DefUse(cfg)
+    loops = loops_over(cfg, "store.iter_changes", du)
+    if not loops:
+        raise AnalysisError("iter_differences_since: loop over store.iter_changes not found")
+    ys = [n for n in cfg.stmt_nodes() if n.kind == "stmt" and isinstance(n.ast, ast.Expr) and isinstance(n.ast.value, (ast.Yield, ast.YieldFrom))]
+    if not ys:
+        raise AnalysisError("iter_differences_since: no yield found")
+    obs = []
+    for y in ys:
+        v = n_ = None
+        ok = False
+        if isinstance(y.ast.value, ast.Yield) and y.ast.value.value is not None:
+            v = y.ast.value.value
+            from .common import as_tuple
+            elts = as_tuple(ctx, fi, y, v)
+            if elts:
+                first_os = origins(du, y, elts[0])
+            else:
+                first_os = origins(du, y, v, path=(0,))
+            ok = bool(first_os) and all(o.kind == "elem" and o.node in loops and tuple(o.path) in ((0,), ("name",)) for o in first_os)
+        obs.append(ctx.ob(ok, fi.qualname, "%s:%d" % (fi.module.rel, y.lineno), "difference is an entry of store.iter_changes()",
+                          "name <- for name, ... in self.store.iter_changes(old_token, new_token)",
+                          "iter_differences_since yields `%s`, which is not an entry of self.store.iter_changes(): the report for one kind of "
+                          "token is computed from another listing than the differences that follow it, so a replica built from the "
+                          "reports drifts from the collection" % src(y.ast.value)[:70]))
+    return obs
